@@ -240,6 +240,49 @@ pub fn run(g: &mut Global) {
         g.random("deep", 3000, &move || strategy(64, true), &check);
     }
     g.random("dataitem", g.tier.pick(4000, 40000), &item_strategy, &check_item);
+    // very large windows (beyond 4096 and beyond 65535 slots), full and wrapped, with random, flat and
+    // plateau histories: length-prefixed containers, pre-allocation caps and run-length encodings live here
+    let seed = g.seed;
+    let cheap = [Kind::Sma, Kind::Wma, Kind::Sd, Kind::Bb, Kind::Roc, Kind::Mfi, Kind::Min, Kind::Max, Kind::FastStoch, Kind::Ce, Kind::SlowStoch];
+    let heavy = [Kind::Mad, Kind::Er, Kind::Cci];
+    let mut big_cfgs: Vec<(Kind, usize)> = vec![];
+    for &k in &cheap {
+        for n in [4097usize, 5000, 66_000] {
+            big_cfgs.push((k, n));
+        }
+    }
+    for &k in &heavy {
+        big_cfgs.push((k, 4100));
+    }
+    let nb = big_cfgs.len() as u64;
+    g.exhaustive(
+        "large_periods",
+        nb * 3,
+        &move |i| {
+            let (kind, n) = big_cfgs[(i % nb) as usize];
+            let shape = (i / nb) as usize; // 0 random, 1 flat, 2 plateaus
+            let mut st = seed ^ (i + 5).wrapping_mul(0x9E3779B97F4A7C15);
+            let mut cur = 50.0;
+            let mut mk = |st: &mut u64, shape: usize| -> Inp {
+                let u = unit(st);
+                let v = match shape {
+                    0 => 10.0 + 90.0 * u,
+                    1 => 42.5,
+                    _ => {
+                        if u > 0.9999 {
+                            cur = 10.0 + 90.0 * unit(st);
+                        }
+                        cur
+                    }
+                };
+                Inp { bar: RawBar { o: v, h: v + 0.5, l: v - 0.25, c: v + 0.125, v: 10.0 + (u * 100.0).round() }, scalar: u > 0.3 }
+            };
+            let history: Vec<SOp> = (0..n + 100).map(|_| SOp::Next(mk(&mut st, shape))).collect();
+            let continuation: Vec<Inp> = (0..n + 3).map(|_| mk(&mut st, 0)).collect();
+            Case { cfg: cfg_small(kind, n), history, continuation }
+        },
+        &check,
+    );
     if g.tier == Tier::Thorough {
         g.fuzz_stage("ops_equiv", Some(2), 2_000_000, "random", &|b| crate::fuzzdec::decode_c06(b), &check);
     }
